@@ -77,6 +77,14 @@ Ltac safe_unfold :=
 Ltac safe_step :=
   match goal with
   | |- Safe (Bind _ _) => apply Safe_bind; [|intros ?]
+  | |- Safe (Opt _) => apply Safe_opt
+  | |- Safe (Cmpl _) => apply Safe_cmpl
+  | |- Safe (On _ _) => apply Safe_on
+  | |- Safe (Many0 _) => apply Safe_many0
+  | |- Safe (Many1 _) => apply Safe_many1
+  | |- Safe (Alt _ _) => apply Safe_alt
+  | |- Safe (Vrfy _ _) => apply Safe_vrfy
+  | |- Safe (Peek _) => apply Safe_peek
   | |- Safe (if ?b then _ else _) => destruct b
   | |- Safe (match ?x with _ => _ end) => destruct x
   | |- Safe (let '(_, _) := ?x in _) => destruct x
@@ -192,3 +200,125 @@ Proof. unfold parse_tls_raw_record. solve_safe. Qed.
 Lemma Safe_many : Safe tls_parser_many.
 Proof. unfold tls_parser_many. solve_safe. Qed.
 #[export] Hint Resolve Safe_many : safe.
+
+(* ---- src/tls_extensions.rs ---- *)
+Ltac safe_def d := unfold d; solve_safe.
+Lemma Safe_sni_hostname : Safe parse_tls_extension_sni_hostname. Proof. safe_def parse_tls_extension_sni_hostname. Qed.
+#[export] Hint Resolve Safe_sni_hostname : safe.
+Lemma Safe_sni_content : Safe parse_tls_extension_sni_content. Proof. safe_def parse_tls_extension_sni_content. Qed.
+Lemma Safe_mfl_content : Safe parse_tls_extension_max_fragment_length_content. Proof. safe_def parse_tls_extension_max_fragment_length_content. Qed.
+Lemma Safe_status_content l : Safe (parse_tls_extension_status_request_content l). Proof. safe_def parse_tls_extension_status_request_content. Qed.
+Lemma Safe_named_groups : Safe parse_named_groups. Proof. unfold parse_named_groups. eauto with safe. Qed.
+#[export] Hint Resolve Safe_named_groups : safe.
+Lemma Safe_tls_versions : Safe parse_tls_versions. Proof. unfold parse_tls_versions. eauto with safe. Qed.
+#[export] Hint Resolve Safe_tls_versions : safe.
+Lemma Safe_ec_content : Safe parse_tls_extension_elliptic_curves_content. Proof. safe_def parse_tls_extension_elliptic_curves_content. Qed.
+Lemma Safe_ecpf_content : Safe parse_tls_extension_ec_point_formats_content. Proof. safe_def parse_tls_extension_ec_point_formats_content. Qed.
+Lemma Safe_sigalg_content : Safe parse_tls_extension_signature_algorithms_content. Proof. safe_def parse_tls_extension_signature_algorithms_content. Qed.
+Lemma Safe_hb_content : Safe parse_tls_extension_heartbeat_content. Proof. safe_def parse_tls_extension_heartbeat_content. Qed.
+Lemma Safe_protocol_name : Safe parse_protocol_name. Proof. safe_def parse_protocol_name. Qed.
+#[export] Hint Resolve Safe_protocol_name : safe.
+Lemma Safe_alpn_content : Safe parse_tls_extension_alpn_content. Proof. safe_def parse_tls_extension_alpn_content. Qed.
+Lemma Safe_padding_content l : Safe (parse_tls_extension_padding_content l). Proof. safe_def parse_tls_extension_padding_content. Qed.
+Lemma Safe_sct_content : Safe parse_tls_extension_signed_certificate_timestamp_content. Proof. safe_def parse_tls_extension_signed_certificate_timestamp_content. Qed.
+Lemma Safe_empty_only l v : Safe (empty_only l v). Proof. safe_def empty_only. Qed.
+#[export] Hint Resolve Safe_empty_only : safe.
+Lemma Safe_rsl : Safe parse_tls_extension_record_size_limit. Proof. safe_def parse_tls_extension_record_size_limit. Qed.
+Lemma Safe_ticket_content l : Safe (parse_tls_extension_session_ticket_content l). Proof. safe_def parse_tls_extension_session_ticket_content. Qed.
+Lemma Safe_kso_content l : Safe (parse_tls_extension_key_share_old_content l). Proof. safe_def parse_tls_extension_key_share_old_content. Qed.
+Lemma Safe_ks_content l : Safe (parse_tls_extension_key_share_content l). Proof. safe_def parse_tls_extension_key_share_content. Qed.
+Lemma Safe_psk_content l : Safe (parse_tls_extension_pre_shared_key_content l). Proof. safe_def parse_tls_extension_pre_shared_key_content. Qed.
+Lemma Safe_ed_content l : Safe (parse_tls_extension_early_data_content l). Proof. safe_def parse_tls_extension_early_data_content. Qed.
+Lemma Safe_sv_content l : Safe (parse_tls_extension_supported_versions_content l). Proof. safe_def parse_tls_extension_supported_versions_content. Qed.
+Lemma Safe_cookie_content l : Safe (parse_tls_extension_cookie_content l). Proof. safe_def parse_tls_extension_cookie_content. Qed.
+Lemma Safe_pskm_content : Safe parse_tls_extension_psk_key_exchange_modes_content. Proof. safe_def parse_tls_extension_psk_key_exchange_modes_content. Qed.
+Lemma Safe_reneg_content : Safe parse_tls_extension_renegotiation_info_content. Proof. safe_def parse_tls_extension_renegotiation_info_content. Qed.
+Lemma Safe_esni : Safe parse_tls_extension_encrypted_server_name. Proof. safe_def parse_tls_extension_encrypted_server_name. Qed.
+Lemma Safe_oid_filter : Safe parse_tls_oid_filter. Proof. safe_def parse_tls_oid_filter. Qed.
+#[export] Hint Resolve Safe_oid_filter : safe.
+Lemma Safe_oid_filters : Safe parse_tls_extension_oid_filters. Proof. safe_def parse_tls_extension_oid_filters. Qed.
+Lemma Safe_ext_unknown : Safe parse_tls_extension_unknown. Proof. safe_def parse_tls_extension_unknown. Qed.
+#[export] Hint Resolve Safe_sni_content Safe_mfl_content Safe_status_content Safe_ec_content Safe_ecpf_content
+  Safe_sigalg_content Safe_hb_content Safe_alpn_content Safe_padding_content Safe_sct_content Safe_rsl
+  Safe_ticket_content Safe_kso_content Safe_ks_content Safe_psk_content Safe_ed_content Safe_sv_content
+  Safe_cookie_content Safe_pskm_content Safe_reneg_content Safe_esni Safe_oid_filters Safe_ext_unknown : safe.
+Lemma Safe_ext_content c l : Safe (ext_content c l).
+Proof.
+  destruct c; cbn [ext_content]; unfold parse_tls_extension_encrypt_then_mac_content,
+    parse_tls_extension_extended_master_secret_content, parse_tls_extension_post_handshake_auth_content,
+    parse_tls_extension_npn_content; eauto with safe.
+Qed.
+#[export] Hint Resolve Safe_ext_content : safe.
+Lemma Safe_dispatch_ext tbl : Safe (dispatch_ext tbl). Proof. safe_def dispatch_ext. Qed.
+#[export] Hint Resolve Safe_dispatch_ext : safe.
+Lemma Safe_ext : Safe parse_tls_extension. Proof. unfold parse_tls_extension. eauto with safe. Qed.
+Lemma Safe_ch_ext : Safe parse_tls_client_hello_extension. Proof. unfold parse_tls_client_hello_extension. eauto with safe. Qed.
+Lemma Safe_sh_ext : Safe parse_tls_server_hello_extension. Proof. unfold parse_tls_server_hello_extension. eauto with safe. Qed.
+#[export] Hint Resolve Safe_ext Safe_ch_ext Safe_sh_ext : safe.
+Lemma Safe_exts : Safe parse_tls_extensions. Proof. unfold parse_tls_extensions. apply Safe_many0, Safe_cmpl, Safe_ext. Qed.
+Lemma Safe_ch_exts : Safe parse_tls_client_hello_extensions. Proof. unfold parse_tls_client_hello_extensions. apply Safe_many0, Safe_cmpl, Safe_ch_ext. Qed.
+Lemma Safe_sh_exts : Safe parse_tls_server_hello_extensions. Proof. unfold parse_tls_server_hello_extensions. apply Safe_many0, Safe_cmpl, Safe_sh_ext. Qed.
+Lemma Safe_x_sni : Safe parse_tls_extension_sni. Proof. safe_def parse_tls_extension_sni. Qed.
+Lemma Safe_x_mfl : Safe parse_tls_extension_max_fragment_length. Proof. safe_def parse_tls_extension_max_fragment_length. Qed.
+Lemma Safe_x_status : Safe parse_tls_extension_status_request. Proof. safe_def parse_tls_extension_status_request. Qed.
+Lemma Safe_x_ec : Safe parse_tls_extension_elliptic_curves. Proof. safe_def parse_tls_extension_elliptic_curves. Qed.
+Lemma Safe_x_ecpf : Safe parse_tls_extension_ec_point_formats. Proof. safe_def parse_tls_extension_ec_point_formats. Qed.
+Lemma Safe_x_sigalg : Safe parse_tls_extension_signature_algorithms. Proof. safe_def parse_tls_extension_signature_algorithms. Qed.
+Lemma Safe_x_hb : Safe parse_tls_extension_heartbeat. Proof. safe_def parse_tls_extension_heartbeat. Qed.
+Lemma Safe_x_etm : Safe parse_tls_extension_encrypt_then_mac.
+Proof. unfold parse_tls_extension_encrypt_then_mac, parse_tls_extension_encrypt_then_mac_content. solve_safe. Qed.
+Lemma Safe_x_ems : Safe parse_tls_extension_extended_master_secret.
+Proof. unfold parse_tls_extension_extended_master_secret, parse_tls_extension_extended_master_secret_content. solve_safe. Qed.
+Lemma Safe_x_ticket : Safe parse_tls_extension_session_ticket. Proof. safe_def parse_tls_extension_session_ticket. Qed.
+Lemma Safe_x_ks : Safe parse_tls_extension_key_share. Proof. safe_def parse_tls_extension_key_share. Qed.
+Lemma Safe_x_psk : Safe parse_tls_extension_pre_shared_key. Proof. safe_def parse_tls_extension_pre_shared_key. Qed.
+Lemma Safe_x_ed : Safe parse_tls_extension_early_data. Proof. safe_def parse_tls_extension_early_data. Qed.
+Lemma Safe_x_sv : Safe parse_tls_extension_supported_versions. Proof. safe_def parse_tls_extension_supported_versions. Qed.
+Lemma Safe_x_cookie : Safe parse_tls_extension_cookie. Proof. safe_def parse_tls_extension_cookie. Qed.
+Lemma Safe_x_pskm : Safe parse_tls_extension_psk_key_exchange_modes. Proof. safe_def parse_tls_extension_psk_key_exchange_modes. Qed.
+
+(* ---- key exchange, signatures, CT ---- *)
+Lemma Safe_dh : Safe parse_dh_params. Proof. safe_def parse_dh_params. Qed.
+Lemma Safe_ec_point : Safe parse_ec_point. Proof. safe_def parse_ec_point. Qed.
+Lemma Safe_ec_curve : Safe parse_ec_curve. Proof. safe_def parse_ec_curve. Qed.
+#[export] Hint Resolve Safe_dh Safe_ec_point Safe_ec_curve : safe.
+Lemma Safe_explicit_prime : Safe parse_explicit_prime. Proof. safe_def parse_explicit_prime. Qed.
+#[export] Hint Resolve Safe_explicit_prime : safe.
+Lemma Safe_ecpc t : Safe (parse_ec_parameters_content t). Proof. safe_def parse_ec_parameters_content. Qed.
+#[export] Hint Resolve Safe_ecpc : safe.
+Lemma Safe_ec_parameters : Safe parse_ec_parameters. Proof. safe_def parse_ec_parameters. Qed.
+#[export] Hint Resolve Safe_ec_parameters : safe.
+Lemma Safe_ecdh : Safe parse_ecdh_params. Proof. safe_def parse_ecdh_params. Qed.
+Lemma Safe_ds_old : Safe parse_digitally_signed_old. Proof. safe_def parse_digitally_signed_old. Qed.
+Lemma Safe_ds : Safe parse_digitally_signed. Proof. safe_def parse_digitally_signed. Qed.
+#[export] Hint Resolve Safe_ecdh Safe_ds_old Safe_ds : safe.
+(* for every content parser that is itself safe *)
+Lemma Safe_content_and_signature T (f : P T) ext : Safe f -> Safe (parse_content_and_signature f ext).
+Proof. intros Hf. unfold parse_content_and_signature. solve_safe. Qed.
+Lemma Safe_ct_ext : Safe parse_ct_extensions. Proof. safe_def parse_ct_extensions. Qed.
+#[export] Hint Resolve Safe_ct_ext : safe.
+Lemma Safe_sct_c : Safe parse_ct_signed_certificate_timestamp_content. Proof. safe_def parse_ct_signed_certificate_timestamp_content. Qed.
+#[export] Hint Resolve Safe_sct_c : safe.
+Lemma Safe_sct : Safe parse_ct_signed_certificate_timestamp. Proof. safe_def parse_ct_signed_certificate_timestamp. Qed.
+#[export] Hint Resolve Safe_sct : safe.
+Lemma Safe_sct_list : Safe parse_ct_signed_certificate_timestamp_list. Proof. safe_def parse_ct_signed_certificate_timestamp_list. Qed.
+
+(* ---- src/dtls.rs ---- *)
+Lemma Safe_dhdr : Safe parse_dtls_record_header. Proof. safe_def parse_dtls_record_header. Qed.
+Lemma Safe_dfrag : Safe parse_dtls_fragment. Proof. safe_def parse_dtls_fragment. Qed.
+Lemma Safe_dch : Safe parse_dtls_client_hello. Proof. safe_def parse_dtls_client_hello. Qed.
+Lemma Safe_dhvr : Safe parse_dtls_hello_verify_request. Proof. safe_def parse_dtls_hello_verify_request. Qed.
+#[export] Hint Resolve Safe_dhdr Safe_dfrag Safe_dch Safe_dhvr : safe.
+Lemma Safe_dtls_hs_body b l : Safe (dtls_hs_body b l). Proof. destruct b; cbn [dtls_hs_body]; solve_safe. Qed.
+#[export] Hint Resolve Safe_dtls_hs_body : safe.
+Lemma Safe_dmsg_hs : Safe parse_dtls_message_handshake. Proof. safe_def parse_dtls_message_handshake. Qed.
+Lemma Safe_dccs : Safe parse_dtls_message_changecipherspec. Proof. safe_def parse_dtls_message_changecipherspec. Qed.
+Lemma Safe_dalert : Safe parse_dtls_message_alert. Proof. safe_def parse_dtls_message_alert. Qed.
+#[export] Hint Resolve Safe_dmsg_hs Safe_dccs Safe_dalert : safe.
+Lemma Safe_drec_body b : Safe (dtls_rec_body b). Proof. destruct b; cbn [dtls_rec_body]; solve_safe. Qed.
+#[export] Hint Resolve Safe_drec_body : safe.
+Lemma Safe_dwith_header h : Safe (parse_dtls_record_with_header h). Proof. safe_def parse_dtls_record_with_header. Qed.
+#[export] Hint Resolve Safe_dwith_header : safe.
+Lemma Safe_dplain : Safe parse_dtls_plaintext_record. Proof. safe_def parse_dtls_plaintext_record. Qed.
+#[export] Hint Resolve Safe_dplain : safe.
+Lemma Safe_dplains : Safe parse_dtls_plaintext_records. Proof. safe_def parse_dtls_plaintext_records. Qed.
